@@ -76,3 +76,37 @@ Example C08_example :
   exists p c, ex_final = Good p /\ nth_error (levels nat p) 0 = Some c
               /\ getitem nat c (-1) = Good (Some [36], Some (306, 1), Some (5, false), None).
 Proof. unfold ex_final. eexists. eexists. split; [vm_compute; reflexivity|]. split; reflexivity. Qed.
+
+(** Full strength (supersedes the [_partial] statement above): on every level of a
+    parallel-tempered chain started from scratch, after ANY schedule of runs and clears — hence
+    across every temperature sweep, which carries records between levels — every record ever made,
+    and so every retained array entry (by [Hist]), is (position, (logl, logp), blob) of one model
+    evaluation made by some level of that chain.  Premise: the model returns a blob always or
+    never ([start_blobs] / [op_disciplined]); the code raises otherwise when it unpacks the
+    model's return value. *)
+From Epsie Require Import Genuine_proofs.
+Theorem C08_all_records_genuine :
+  forall (V : Type) (isneginf isnan : V -> bool) (vzero : V) (comps : list (list nat))
+         (b : bool) (n swi : nat) (ss : list (pos V * mout V)) (ops : list (op V)) (p0 p' : ptchain V),
+    0 < n -> Forall (start_blobs V b) ss -> exec V isneginf isnan vzero comps (new_pt V n swi) (OStart V ss) = Good p0 ->
+    Forall (run_or_clear V) ops -> Forall (op_disciplined V b) ops ->
+    execs V isneginf isnan vzero comps p0 ops = Good p' ->
+    forall c, In c (levels V p') ->
+      (forall r, In r (hist V c) -> exists lv x, In lv (levels V p') /\ In x (calls V lv) /\ row3 V r = ev3 V x)
+      /\ Hist V vzero c.
+Proof. exact all_records_genuine. Qed.
+Print Assumptions C08_all_records_genuine.
+
+(** Non-vacuity: the example schedule (start, run 4 with a sweep, clear, run 2 with a sweep; no
+    blobs) meets every premise of the theorem. *)
+Example C08_all_records_genuine_example :
+  exists p0, xexec (new_pt nat 3 3) (hd (OClear nat) ex_ops) = Good p0
+  /\ Forall (start_blobs nat false) [([10], (100, 1, None)); ([20], (200, 1, None)); ([30], (300, 1, None))]
+  /\ Forall (run_or_clear nat) (tl ex_ops) /\ Forall (op_disciplined nat false) (tl ex_ops)
+  /\ exists p', xexecs p0 (tl ex_ops) = Good p'.
+Proof.
+  eexists. split; [vm_compute; reflexivity|]. split; [repeat constructor|].
+  split; [repeat constructor|]. split.
+  - repeat (constructor; cbn); intros; reflexivity.
+  - eexists. vm_compute. reflexivity.
+Qed.
